@@ -159,6 +159,10 @@ def synth_body(ctx, case):
     rank_def = bool(np.any(sig == 0))
     ctx.case(case, nontrivial=case["n_off"] > n_on or rank_def or rc > 0, classes=[case["spec"], dtype, "rc0" if rc == 0 else "rc_pos", "rank_deficient" if rank_def else "full_rank"])
     Cin = C.astype(dtype)
+    if dtype in ("float64", "float32") and case["seed"] % 5 == 0:
+        # the same numbers in non-native byte order (a covariance read from a FITS file or with numpy.fromfile)
+        Cin = Cin.astype(Cin.dtype.newbyteorder())
+        ctx.classes["non_native_byte_order"] += 1
     ctx.require(bool(np.all(Cin == C)) or not dtype.startswith("int"), "harness: integer covariance not exactly representable")
     C0 = Cin.copy()
     kw = {} if (rc == 0 and case["seed"] % 2 == 0) else {"svd_conditioning": rc}
